@@ -203,6 +203,15 @@ func simplify(t *Term) *Term {
 			return &Term{Op: t.Op, A: []*Term{base}, Typ: t.Typ, Obj: t.Obj, Pos: t.Pos}
 		}
 	}
+	// the element of a collection that a module function gathers from a store scan is the scanned record
+	if t.Op == "elem" && len(t.A) == 1 && elemResolver != nil {
+		if r := elemResolver(t.A[0]); r != nil {
+			if r.Typ == nil {
+				r = r.withType(t.Typ)
+			}
+			return r
+		}
+	}
 	// x[i] with i the index under which x is being ranged (known after a helper's result was substituted)
 	if t.Op == "idx" && len(t.A) == 2 {
 		it := t.A[1]
@@ -551,6 +560,10 @@ func normFact(f Fact) Fact {
 				t = mk("ok", c)
 			}
 		}
+	}
+	// symmetric predicates: arguments in a fixed order (a.Equals(b) and b.Equals(a) are one fact)
+	if (t.Op == "sdk.AccAddress.Equals" || t.Op == "bytes.Equal") && len(t.A) == 2 && t.A[0].String() > t.A[1].String() {
+		t = &Term{Op: t.Op, A: []*Term{t.A[1], t.A[0]}, Typ: t.Typ, Obj: t.Obj, Pos: t.Pos}
 	}
 	// 0 < x for an unsigned x is x != 0
 	if t.Op == "<" && len(t.A) == 2 && t.A[0].IsAt("#0") && t.A[1].Op != "len" && isUnsigned(t.A[1].Typ) {
